@@ -4,6 +4,7 @@
 From Coq Require Import List NArith ZArith Floats Bool.
 From LW Require Import Base.Outcome Base.Bytes Base.Hex Crypto.KeyWrap Crypto.KeyWrapAny
   Backend.F64 Backend.HexBytes Backend.KeyEnvelope Backend.KeyEnvelopeAny Backend.Iso8601.
+From LW Require Export Backend.Json.   (* the case files spell trees with its constructors *)
 Import ListNotations.
 Open Scope Z_scope.
 
@@ -28,7 +29,15 @@ Inductive case :=
    UnmarshalText makes of that text (Some (unix seconds, zone offset) / None = error) *)
 | CTime (secs off : Z) (text : list N) (parsed : option (Z * Z))
 (* UnmarshalText of an arbitrary text *)
-| CTimeText (text : list N) (parsed : option (Z * Z)).
+| CTimeText (text : list N) (parsed : option (Z * Z))
+(* json.Marshal of a generic tree (maps: keys in Marshal's sorted order) *)
+| CJsonPrint (v : jvalue) (out : list N)
+(* a text through encoding/json: json.Valid; the tree Unmarshal builds in an interface{} with UseNumber
+   (objects as maps: keys sorted, last duplicate wins); the tree the Decoder's token stream spells
+   (members in order, duplicates kept) *)
+| CJsonParse (text : list N) (valid : bool) (as_map ordered : option jvalue)
+(* n times [ (or {"a":) then the closing brackets: the nesting limit *)
+| CJsonDeep (obj : bool) (n : N) (valid : bool).
 
 Definition oz_eqb (a : option Z) (b : Z) : bool := match a with Some x => x =? b | None => false end.
 Definition obeqb := outcome_eqb bytes_eqb.
@@ -43,6 +52,17 @@ Definition ozz_eqb (a b : option (Z * Z)) : bool :=
   | None, None => true
   | _, _ => false
   end.
+
+Definition ojv_eqb (a b : option jvalue) : bool :=
+  match a, b with
+  | Some x, Some y => jvalue_eqb x y
+  | None, None => true
+  | _, _ => false
+  end.
+
+Definition deep_text (obj : bool) (n : nat) : list N :=
+  if obj then concat (repeat [123; 34; 97; 34; 58]%N n) ++ [49%N] ++ repeat 125%N n
+  else repeat 91%N n ++ repeat 93%N n.
 
 (* the instants RFC 3339 can carry: local year 0..9999, zone offset a whole number of minutes, less than a day *)
 Definition rfc3339_range (secs off : Z) : bool :=
@@ -107,6 +127,23 @@ Definition check (c : case) : N :=
            && (Nat.eqb (length text) 20 || Nat.eqb (length text) 25)))
   | CTimeText text parsed =>
     code (ozz_eqb (parse_rfc3339 text) parsed) true
+  | CJsonPrint v out =>
+    code (bytes_eqb (json_print v) out)
+         (* a well-formed tree comes back from the observed text *)
+         (negb (jwf v && Nat.leb (jdepth v) max_depth) ||
+          match json_parse out with POk v' => jvalue_eqb v' v | _ => false end)
+  | CJsonParse text valid as_map ordered =>
+    match json_parse text with
+    | POk v => code (valid && ojv_eqb as_map (Some (canon v)) && ojv_eqb ordered (Some v)) true
+    | PErr => code (negb valid) true
+    | PFuel => 3%N                       (* the parser ran out of fuel: JsonProofs.json_parse_total is violated *)
+    end
+  | CJsonDeep obj n valid =>
+    match json_parse (deep_text obj (N.to_nat n)) with
+    | POk _ => code valid true
+    | PErr => code (negb valid) true
+    | PFuel => 3%N
+    end
   end.
 
 Definition run_cases := run_with check.
